@@ -164,8 +164,9 @@ class Gen:
         n = self.names.fresh("Arr")
         return Decl("type", n, ["TYPE", "  %s : ARRAY [1..%d] OF INT;" % (n, self.rng.randint(2, 9)), "END_TYPE"], {"tkind": "array"})
 
-    def fb(self, callee=None, enums=()):
-        """a function block; `callee` = an fb Decl to instantiate and call"""
+    def fb(self, callee=None, enums=(), shadow=None):
+        """a function block; `callee` = an fb Decl to instantiate and call; `shadow` = the name of a global variable this
+        block does not use: it declares a local constant of that name (scopes are per unit, so this is valid)"""
         r = self.rng
         n = self.names.fresh("Fb")
         ins = [(self.names.fresh("i"), r.choice(["INT", "BOOL"])) for _ in range(r.randint(1, 3))]
@@ -178,7 +179,10 @@ class Gen:
         if enums and r.random() < 0.6:
             e = r.choice(enums)
             ev = self.names.fresh("ev")
-            lines.append("  %s : %s := %s;" % (ev, e.name, r.choice(e.info["values"])))
+            val = r.choice(e.info["values"])
+            if r.random() < 0.35:
+                val = "%s#%s" % (e.name, val)          # the value written with its type prefix
+            lines.append("  %s : %s := %s;" % (ev, e.name, val))
             info["enum_var"] = (ev, e.name)
         if callee is not None:
             inst = self.names.fresh("inst")
@@ -187,6 +191,9 @@ class Gen:
             calls = self.fb_calls(inst, callee, [v for v, t in ins + outs + locs if t == "INT"], [v for v, t in ins + outs + locs if t == "BOOL"])
             info["calls"] = calls
         lines.append("END_VAR")
+        if shadow is not None:
+            lines += ["VAR CONSTANT", "  %s : INT := 3;" % shadow, "END_VAR"]
+            info["shadow"] = shadow
         allv = ins + outs + locs
         body = self.stmts([v for v, t in allv if t == "INT"], [v for v, t in allv if t == "BOOL"], calls)
         info["body_start"] = len(lines)
@@ -285,16 +292,18 @@ def gen_valid(rng):
     for mk in (g.struct_type, g.subrange_type, g.array_type):
         if rng.random() < 0.5:
             decls.append(mk())
-    fbs = []
-    for _ in range(rng.randint(1, 3)):
-        callee = rng.choice(fbs) if fbs and rng.random() < 0.7 else None
-        fbs.append(g.fb(callee, enums))
-    decls += fbs
-    if rng.random() < 0.5:
-        decls.append(g.function())
     glob = None
     if rng.random() < 0.5:
         glob = (g.names.fresh("G"), rng.random() < 0.5)
+    fbs = []
+    for _ in range(rng.randint(1, 3)):
+        callee = rng.choice(fbs) if fbs and rng.random() < 0.7 else None
+        # a local constant may carry the name of a global variable of the configuration: another scope
+        shadow = glob[0] if glob is not None and rng.random() < 0.3 else None
+        fbs.append(g.fb(callee, enums, shadow))
+    decls += fbs
+    if rng.random() < 0.5:
+        decls.append(g.function())
     prog = g.program(rng.choice(fbs) if rng.random() < 0.8 else None, glob)
     decls.append(prog)
     if glob is not None or rng.random() < 0.5:
@@ -412,7 +421,7 @@ def mutants(decls, rng):
             # a program that uses the global without declaring it VAR_EXTERNAL: the name is not in its scope
             gname = d.info["global"][0]
             for pi, x in enumerate(decls):
-                if x.kind in ("program", "fb") and not x.info.get("external"):
+                if x.kind in ("program", "fb") and not x.info.get("external") and x.info.get("shadow") != gname:
                     nd = x.copy()
                     nd.lines.insert(len(nd.lines) - 1, "  %s := 1;" % gname)
                     out.append(("P0015", "global %s used in %s without VAR_EXTERNAL" % (gname, x.name), with_decl(pi, nd)))
